@@ -169,7 +169,11 @@ def gen_case(r, big=False, nchunkings=3):
     case["chunkings"] = chunkings
     case["variant"] = r.choice(["dask"] * 8 + ["xr", "int"])
     if r.random() < 0.35:
-        case["history"] = [[r.choice(["count", "sum", "min", "max"]), r.randrange(nchunkings)] for _ in range(r.randint(2, 6))]
+        ops = ["count", "sum", "min", "max", "average", "fractions"]
+        hist = [[r.choice(ops), r.randrange(nchunkings)] for _ in range(r.randint(2, 6))]
+        if r.random() < 0.4:        # the memo of get_count is first touched AFTER another statistic has been computed
+            hist = [[r.choice(["average", "sum", "min"]), r.randrange(nchunkings)]] + hist + [[r.choice(["count", "fractions"]), r.randrange(nchunkings)]]
+        case["history"] = hist
     return case
 
 
@@ -376,9 +380,30 @@ def judge(case, outs):
             if oo[q] != o[q]:
                 fails.append(("C07.chunking." + q, "%s differs between chunk layouts %s and %s" % (q, case["chunkings"][0], case["chunkings"][j])))
                 break
+    # ---- several lazy results for DIFFERENT data on one resampler evaluated in one dask computation (second array = -fdata)
+    if "joint" in o:
+        j2 = {q: [unhex(v) for v in l] for q, l in o["joint"].items()}
+        a2 = {q: [unhex(v) for v in l] for q, l in o["alone"].items()}
+        for k in range(size):
+            ms = [-fdata[i] for i in members.get(k, [])]
+            wabs = NAN
+            if ms:
+                m = max(abs(v) for v in ms)
+                wabs = m if m in ms else -m
+            for nm, want in (("min2", min(ms) if ms else NAN), ("max2", max(ms) if ms else NAN), ("absmax2", wabs)):
+                if not feq(j2[nm][k], want):
+                    alone = a2.get(nm, [None] * size)[k]
+                    fails.append(("C07.joint_compute." + nm[:-1], "cell %d: get_%s of a second data array evaluated in one dask.compute together "
+                                  "with the statistics of the first gives %r, its points carry %r (expected %r; evaluated alone: %r)"
+                                  % (k, nm[:-1], j2[nm][k], ms, want, alone)))
+                    break
+            else:
+                continue
+            break
     # ---- a history of calls on one object returns what separate fresh objects return
     for step, hh in enumerate(o.get("history", [])):
-        ref = {"count": o["count"], "sum": o["sum"], "min": o["min"], "max": o["max"]}[hh["op"]]
+        ref = {"count": o["count"], "sum": o["sum"], "min": o["min"], "max": o["max"], "average": o["avg"],
+               "fractions": o["frac"][0] if o["frac"] else None}[hh["op"]]
         if hh["out"] != ref:
             fails.append(("C07.history." + hh["op"], "call %d (%s) of the history %s on one object returns %s, a fresh object returns %s"
                           % (step, hh["op"], case["history"], hh["out"], ref)))
@@ -452,14 +477,21 @@ def coq_hist_case(case, o):
     for hh in o["history"]:
         if hh["op"] == "count":
             calls.append("CallCount")
-            exps.append("ResZ %s" % zl(hh["out"]))
+            exps.append("HZ %s" % zl(hh["out"]))
+        elif hh["op"] == "average":
+            calls.append("CallAvg %s %s %s %s" % (nl(hh["lens"]), dl(u(case["data"])), to_dat(unhex(case["fill"])),
+                                                "true" if case["skipna"] else "false"))
+            exps.append("HF %s" % fl(u(hh["out"])))
+        elif hh["op"] == "fractions":
+            calls.append("CallFrac %s %s (%d) %s" % (nl(hh["lens"]), dl(u(case["fdata"])), int(hh["cat"]), to_dat(unhex(case["ffill"]))))
+            exps.append("HF %s" % fl(u(hh["out"])))
         elif hh["op"] == "sum":
             calls.append("CallSum %s %s %s %s %s" % (nl(hh["lens"]), dl(u(case["data"])), to_dat(unhex(case["fill"])),
                                                   "true" if case["skipna"] else "false", to_dat(unhex(case["ebv"]))))
-            exps.append("ResD %s" % dl(u(hh["out"])))
+            exps.append("HD %s" % dl(u(hh["out"])))
         else:
             calls.append("%s %s %s" % ("CallMin" if hh["op"] == "min" else "CallMax", nl(hh["lens"]), dl(u(case["fdata"]))))
-            exps.append("ResD %s" % dl(u(hh["out"])))
+            exps.append("HD %s" % dl(u(hh["out"])))
     return "((%d), [%s], [%s], [%s])" % (ar["w"] * ar["h"], "; ".join(chunks0), "; ".join(calls), "; ".join(exps))
 
 
@@ -513,8 +545,9 @@ def run(ctx):
                 "points inside / exactly on cell borders and outer edges / one ulp beside them / outside / NaN, inf, 1e30, 2^63, -0.0; "
                 "integer-valued data with fill markers and NaN (sum/average only), fill_value, skipna, empty_bucket_value, category "
                 "sets; data handed over as dask float64 (80%), as xarray.DataArray (10%) or as int64 (10%); in a third of the cases a random "
-                "history of 2-6 eager get_count/get_sum/get_min/get_max calls on ONE object (re-chunked idxs, memoised counts) compared with "
-                "fresh-object results; two (quick) or three (thorough) random dask chunk layouts (1-D and 2-D, chunk size 1, ragged) of coordinates and data per case. "
+                "history of 2-8 eager get_count/get_sum/get_min/get_max/get_average/get_fractions calls on ONE object (re-chunked idxs, "
+                "memoised counts; 40% of them touch get_count/get_fractions only after another statistic) compared with fresh-object "
+                "results; min/max/abs-max of a second data array (-data, same chunking) evaluated in the same dask.compute as the first; two (quick) or three (thorough) random dask chunk layouts (1-D and 2-D, chunk size 1, ragged) of coordinates and data per case. "
                 "Non-trivial = at least one cell with two or more points and at least one point outside the area; "
                 "distinct = distinct (area, coordinates, data, configuration)")
     r = ctx.rng
